@@ -45,7 +45,35 @@ def serde_items(attr_text):
     return items
 
 
-def visitor_table(ctx, vs_body, vm_body, struct_adt):
+LOSSY = {"filter", "and_then", "xor", "zip", "take", "replace", "take_if", "min", "max", "clamp", "saturating_add", "saturating_sub",
+         "wrapping_add", "wrapping_sub", "checked_add", "checked_sub", "abs_diff", "rem_euclid", "pow", "next_power_of_two"}
+
+
+def _lossy_wrapper(term, slot):
+    """name of a value-changing operation between a decoded slot and the field it feeds (`slot.filter(..)`, `slot + 1`,
+    `min(slot, k)`), or None: the field of the rebuilt value must be the decoded value itself (or a default when the key
+    is absent), not a function of it"""
+    def rec(t, seen):
+        # -> (slot found below t, first lossy operation on the way down)
+        if t == slot:
+            return True, seen
+        if not isinstance(t, tuple):
+            return False, None
+        here = seen
+        if here is None and t and t[0] == "call" and isinstance(t[1], str) and t[1].split("::")[-1] in LOSSY:
+            here = t[1].split("::")[-1]
+        elif here is None and t and t[0] in ("bin", "satadd", "satsub"):
+            here = "arithmetic (%s)" % (t[1] if t[0] == "bin" and isinstance(t[1], str) else t[0])
+        for x in t:
+            if isinstance(x, tuple):
+                found, name = rec(x, here)
+                if found and name:
+                    return True, name
+        return False, None
+    return rec(term, None)[1]
+
+
+def visitor_table(ctx, vs_body, vm_body, struct_adt, lossy=None):
     """literal key -> struct field through (visit_str literal -> Field variant) and (visit_map arm -> slot -> field)"""
     w = ctx.walker(max_depth=3)
     lit_to_variant = {}
@@ -86,6 +114,7 @@ def visitor_table(ctx, vs_body, vm_body, struct_adt):
     slot_to_field = {}
     fields = [f["name"] for f in struct_adt["variants"][0]["fields"]]
     n_ok = 0
+    ok_paths, field_slots = [], {}
     for r in res:
         if r.kind != "return":
             continue
@@ -101,11 +130,24 @@ def visitor_table(ctx, vs_body, vm_body, struct_adt):
         for e in r.trace:
             if e[0] in ("call", "eff") and str(e[1]).endswith("new") and e[2]:
                 new_args[e[3]] = e[2][0]
+        ok_paths.append((r, [(f, new_args.get(t, t)) for f, t in inner[3]]))
         for f, t in inner[3]:
             t2 = new_args.get(t, t)
             for s in subterms(t2):
                 if isinstance(s, tuple) and s[0] == "havoc" and len(s) == 3 and isinstance(s[2], int):
                     slot_to_field.setdefault(s[2], set()).add(f)
+                    field_slots.setdefault(f, set()).add(s)
+                    w = _lossy_wrapper(t2, s)
+                    if w and lossy is not None:
+                        lossy.setdefault(f, w)
+    # a key that was present decides its field: on a path where the slot is known to be Some, the field must carry the
+    # slot's payload (a default taken although the key was there - `slot.filter(cond).unwrap_or(default)` - loses it)
+    if lossy is not None:
+        for r, fields in ok_paths:
+            for f, t2 in fields:
+                for sl in field_slots.get(f, ()):
+                    if r.facts.variant.get(sl) == "Some" and not any(x == sl for x in subterms(t2)):
+                        lossy.setdefault(f, "a default although its key was present (the decoded value is dropped on a condition)")
     table = {}
     for lit, var in lit_to_variant.items():
         fs = set()
@@ -274,7 +316,10 @@ def run(ctx, chk):
         vs, vm = db.serde_visitors(ty)
         if not chk.require(len(vs) == 1 and len(vm) == 1, "J1", ty + ":visitor", "", "visitor bodies found: %d/%d" % (len(vs), len(vm))):
             continue
-        table, rejects, n_ok = visitor_table(ctx, vs[0], vm[0], adt)
+        lossy = {}
+        table, rejects, n_ok = visitor_table(ctx, vs[0], vm[0], adt, lossy)
+        for f_, w_ in sorted(lossy.items()):
+            chk.fail("J1", "%s:%s:decoded-value-altered" % (ty, f_), vm[0].span, "field %s of the rebuilt value is not the decoded value of its key: it passes through %s" % (f_, w_))
         chk.require(set(table) == set(sfields), "J1", ty + ":read-keys", vs[0].span, "keys accepted %s vs fields %s" % (sorted(table), sorted(sfields)))
         for k, fs in sorted(table.items()):
             chk.require(fs == [k], "J1", "%s:%s:reader-binding" % (ty, k), vm[0].span, "key %s is stored into field(s) %s" % (k, fs))
